@@ -330,6 +330,39 @@ Qed.
 Lemma root_lt' : (root C < length C)%nat.
 Proof. apply root_lt. apply HWF. Qed.
 
+(* every variable below a node is below the root (all_reachable) *)
+Lemma parent_exists j : (j < root C)%nat ->
+  exists p, (j < p <= root C)%nat /\ In j (children (nth p C FalseN)).
+Proof.
+  intros Hj. pose proof (wfq_reach C n HQ) as Hr. unfold all_reachable in Hr. rewrite forallb_forall in Hr.
+  assert (Hin : In j (seq 0 (length C - 1))) by (apply in_seq; unfold root in Hj; lia).
+  specialize (Hr j Hin). unfold has_parent in Hr. apply existsb_exists in Hr. destruct Hr as [nd [Hnd Hj']].
+  apply existsb_exists in Hj'. destruct Hj' as [j' [Hj' E]]. apply Nat.eqb_eq in E. subst j'.
+  destruct (In_nth C nd FalseN Hnd) as [p [Hp Hnth]]. exists p. subst nd. split; [|exact Hj'].
+  pose proof (idx_ok_nth C p FalseN Hok Hp j Hj'). unfold root. lia.
+Qed.
+
+Lemma V_below_root : forall k j, (root C - j <= k)%nat -> (j <= root C)%nat -> incl (V j) (V (root C)).
+Proof.
+  induction k as [|k IH]; intros j Hd Hj.
+  - replace j with (root C) by lia. apply incl_refl.
+  - destruct (Nat.eq_dec j (root C)) as [->|Hne]; [apply incl_refl|].
+    destruct (parent_exists j ltac:(lia)) as [p [Hp Hc]].
+    eapply incl_tran; [apply (vars_child p j); [pose proof root_lt'; lia|exact Hc]|].
+    apply IH; lia.
+Qed.
+
+Lemma V_inr r v : (r < length C)%nat -> In v (V r) -> 1 <= v <= Z.of_nat n.
+Proof.
+  intros Hr Hv. apply root_vars. apply (V_below_root (root C) r); [lia|unfold root; lia|exact Hv].
+Qed.
+
+Lemma lits_inr l : In l (lits_of C) -> 1 <= Z.abs l <= Z.of_nat n.
+Proof.
+  intros Hl. apply in_lits_of in Hl. destruct (In_nth C (Lit l) FalseN Hl) as [j [Hj Hnth]].
+  apply (V_inr j); [exact Hj|]. rewrite (V_unfold j Hj), Hnth. now left.
+Qed.
+
 Lemma root_model (lits : cfg) :
   In lits (all_cfgs n) -> NoDup (map Z.abs lits) -> ~ In 0 lits ->
   valid (root C) lits -> In lits (Models C n).
